@@ -388,15 +388,17 @@ var protectedHeaders = []string{"Content-Type", "Access-Control-Allow-Origin", "
 
 func c17Config(t *rapid.T, p *Profile) WorldConfig {
 	cfg := WorldConfig{Resources: []ResDef{{Name: "t.a", Type: "model", Model: map[string]Val{"x": Prim("1")}}}}
-	switch rapid.IntRange(0, 3).Draw(t, "origins") {
+	switch rapid.IntRange(0, 4).Draw(t, "origins") {
 	case 0:
 		cfg.AllowOrigin = "*"
 	case 1:
 		cfg.AllowOrigin = "http://example.com"
 	case 2:
 		cfg.AllowOrigin = "https://App.Example.com:8080;http://localhost"
-	default:
+	case 3:
 		cfg.AllowOrigin = "http://b.org;http://a.org;https://c.org"
+	default:
+		cfg.AllowOrigin = "https://kiosk.example.io;http://localhost:8080"
 	}
 	if rapid.IntRange(0, 2).Draw(t, "hauth") == 0 {
 		cfg.HeaderAuth = "auth.t.login"
@@ -502,7 +504,7 @@ func c17Origin(t *rapid.T, w *World) (string, bool) {
 	listed := strings.Split(w.Cfg.AllowOrigin, ";")
 	base := rapid.SampledFrom(listed).Draw(t, "obase")
 	origin := ""
-	switch rapid.IntRange(0, 8).Draw(t, "ovar") {
+	switch rapid.IntRange(0, 11).Draw(t, "ovar") {
 	case 0:
 		origin = base
 	case 1:
@@ -521,8 +523,34 @@ func c17Origin(t *rapid.T, w *World) (string, bool) {
 		origin = "http://evil.org"
 	case 7:
 		origin = strings.Replace(base, "e", "é", 1)
-	default:
+	case 8:
 		origin = strings.Replace(base, "http", "HTTP", 1)
+	case 9, 10:
+		// a non-ASCII code point that Unicode case mapping or folding sends to an
+		// ASCII letter of the listed origin: equal only under a non-ASCII comparison
+		conf := map[byte][]string{'i': {"\u0130"}, 'I': {"\u0130", "\u0131"}, 'k': {"\u212a"}, 'K': {"\u212a"}, 's': {"\u017f"}, 'S': {"\u017f"}}
+		var pos []int
+		for i := 0; i < len(base); i++ {
+			if conf[base[i]] != nil {
+				pos = append(pos, i)
+			}
+		}
+		if len(pos) > 0 {
+			i := pos[rapid.IntRange(0, len(pos)-1).Draw(t, "cpos")]
+			origin = base[:i] + rapid.SampledFrom(conf[base[i]]).Draw(t, "conf") + base[i+1:]
+		}
+	default:
+		// flip the case of one ASCII letter (still allowed), or change one byte (not)
+		if len(base) > 0 {
+			i := rapid.IntRange(0, len(base)-1).Draw(t, "fpos")
+			b := []byte(base)
+			if rapid.Bool().Draw(t, "flip") && ((b[i]|0x20) >= 'a' && (b[i]|0x20) <= 'z') {
+				b[i] ^= 0x20
+			} else {
+				b[i] = "abz.:/0-_"[rapid.IntRange(0, 8).Draw(t, "fbyte")]
+			}
+			origin = string(b)
+		}
 	}
 	if origin == "" || origin == "*" {
 		origin = "http://evil.org"
@@ -560,36 +588,8 @@ func c17Request(t *rapid.T, w *World, m *MonScn, api string, id int) {
 		url += "/set"
 	}
 	hdr := map[string]string{}
-	if rapid.IntRange(0, 3).Draw(t, "hasorigin") > 0 {
-		listed := strings.Split(w.Cfg.AllowOrigin, ";")
-		base := rapid.SampledFrom(listed).Draw(t, "obase")
-		origin := ""
-		switch rapid.IntRange(0, 8).Draw(t, "ovar") {
-		case 0:
-			origin = base
-		case 1:
-			origin = strings.ToUpper(base)
-		case 2:
-			origin = lowerASCII(base)
-		case 3:
-			origin = base + "x"
-		case 4:
-			if len(base) > 1 {
-				origin = base[:len(base)-1]
-			}
-		case 5:
-			origin = "null"
-		case 6:
-			origin = "http://evil.org"
-		case 7:
-			origin = strings.Replace(base, "e", "é", 1)
-		default:
-			origin = strings.Replace(base, "http", "HTTP", 1)
-		}
-		if origin == "" || origin == "*" {
-			origin = "http://evil.org"
-		}
-		hdr["Origin"] = origin
+	if o, ok := c17Origin(t, w); ok {
+		hdr["Origin"] = o
 	}
 	if method == "OPTIONS" && rapid.Bool().Draw(t, "acrh") {
 		hdr["Access-Control-Request-Headers"] = "X-Foo, Content-Type"
